@@ -8,6 +8,7 @@
 //                           mj_jacDot, and the frames recomputed after mj_integratePos perturbations
 //                           of +-eps along every dof and along qvel
 //   E seed feat nbody rep   constraint rows: efc_J (dense) and efc_pos at q and at q +- eps e_k
+//   R                       a fixed tendon that lists the same joint twice must be rejected by mj_compile
 #include "mjgen.h"
 #include "engine/engine_core_util.h"   // mj_jacSparse, mj_bodyChain are not part of the public header
 
@@ -101,11 +102,59 @@ static void k_state(const mjModel* m, mjData* d, unsigned long long seed, int re
   }
 }
 
+// constraint rows: efc_J (dense) and efc_pos at the current qpos and at qpos +- eps e_k
+static void efc_block(mjModel* m, mjData* d) {
+  int nv = m->nv, nq = m->nq;
+  mjtNum* q0 = (mjtNum*)calloc(nq + 1, sizeof(mjtNum)); mjtNum* dv = (mjtNum*)calloc(nv + 1, sizeof(mjtNum));
+  int savej = m->opt.jacobian; m->opt.jacobian = mjJAC_DENSE;
+  mj_forward(m, d);
+  p1("nv", nv); p1("nefc", d->nefc); p1("ncon", d->ncon);
+  pi("efc_type", d->efc_type, d->nefc); pi("efc_id", d->efc_id, d->nefc);
+  pd("efc_pos", d->efc_pos, d->nefc); pd("efc_margin", d->efc_margin, d->nefc); pd("efc_J", d->efc_J, d->nefc * nv);
+  pi("eq_type", m->eq_type, m->neq);
+  mjtNum eps = 1e-6; pd("eps", &eps, 1);
+  memcpy(q0, d->qpos, sizeof(mjtNum) * nq);
+  for (int k = 0; k < nv; k++) for (int sg = 0; sg < 2; sg++) {
+    for (int i = 0; i < nv; i++) dv[i] = (i == k ? 1.0 : 0.0);
+    memcpy(d->qpos, q0, sizeof(mjtNum) * nq);
+    mj_integratePos(m, d->qpos, dv, sg ? -eps : eps);
+    mj_forward(m, d);
+    char nm[64];
+    snprintf(nm, sizeof(nm), "%c%d_efc_type", sg ? 'M' : 'P', k); pi(nm, d->efc_type, d->nefc);
+    snprintf(nm, sizeof(nm), "%c%d_efc_id", sg ? 'M' : 'P', k); pi(nm, d->efc_id, d->nefc);
+    snprintf(nm, sizeof(nm), "%c%d_efc_pos", sg ? 'M' : 'P', k); pd(nm, d->efc_pos, d->nefc);
+  }
+  m->opt.jacobian = savej;
+  free(q0); free(dv);
+}
+
+// support for the repaired defect "fixed tendon listing a joint twice": the compiler must reject such a tendon;
+// if it is accepted the constraint-row data of the model are dumped so that the oracle can judge the rows
+static void repeated_joint_tendon(void) {
+  mjSpec* s = mj_makeSpec();
+  mjsBody* b = mjs_addBody(mjs_findBody(s, "world"), NULL);
+  mjsJoint* j = mjs_addJoint(b, NULL); j->type = mjJNT_HINGE; mjs_setName(j->element, "j0");
+  mjsGeom* g = mjs_addGeom(b, NULL); g->type = mjGEOM_SPHERE; g->size[0] = 0.1; g->pos[0] = 0.3;
+  mjsTendon* t = mjs_addTendon(s, NULL); mjs_setName(t->element, "t0");
+  mjs_wrapJoint(t, "j0", 1.0); mjs_wrapJoint(t, "j0", 2.0);
+  t->limited = mjLIMITED_TRUE; t->range[0] = -0.1; t->range[1] = 0.1;
+  mjModel* m = mj_compile(s, NULL);
+  p1("rejected", m ? 0 : 1);
+  if (m) {
+    mjData* d = mj_makeData(m);
+    d->qpos[0] = 0.5;
+    if (MJG_TRY) { efc_block(m, d); MJG_END; } else printf("ERR 2 %s\n", mjg_last_error);
+    mj_deleteData(d); mj_deleteModel(m);
+  }
+  mj_deleteSpec(s);
+}
+
 int main(void) {
   mjg_install_handlers();
   char* line = NULL; size_t cap = 0;
   while (getline(&line, &cap, stdin) > 0) {
     char* p = line; char op = *p++;
+    if (op == 'R') { repeated_joint_tendon(); printf("END\n"); fflush(stdout); continue; }
     unsigned long long seed = strtoull(p, &p, 10); unsigned feat = (unsigned)strtoul(p, &p, 10);
     int nbody = (int)strtol(p, &p, 10); int rep = (int)strtol(p, &p, 10);
     mjModel* m = get_model(seed, feat, nbody);
@@ -197,27 +246,7 @@ int main(void) {
         mj_resetData(m, d);
         mjg_random_state(m, d, &r, 1.0);
         memset(d->qfrc_applied, 0, sizeof(mjtNum) * nv); memset(d->xfrc_applied, 0, sizeof(mjtNum) * 6 * m->nbody);
-        int savej = m->opt.jacobian; m->opt.jacobian = mjJAC_DENSE;
-        mj_forward(m, d);
-        p1("nv", nv); p1("nefc", d->nefc); p1("ncon", d->ncon);
-        pi("efc_type", d->efc_type, d->nefc); pi("efc_id", d->efc_id, d->nefc);
-        pd("efc_pos", d->efc_pos, d->nefc); pd("efc_margin", d->efc_margin, d->nefc); pd("efc_J", d->efc_J, d->nefc * nv);
-        pi("eq_type", m->eq_type, m->neq); pi("eq_obj1id", m->eq_obj1id, m->neq); pi("eq_obj2id", m->eq_obj2id, m->neq);
-        pi("tendon_adr", m->tendon_adr, m->ntendon); pi("tendon_num", m->tendon_num, m->ntendon);
-        pi("wrap_type", m->wrap_type, m->nwrap); pi("wrap_objid", m->wrap_objid, m->nwrap); pi("jnt_dofadr", m->jnt_dofadr, m->njnt);
-        mjtNum eps = 1e-6; pd("eps", &eps, 1);
-        memcpy(q0, d->qpos, sizeof(mjtNum) * nq);
-        for (int k = 0; k < nv; k++) for (int sg = 0; sg < 2; sg++) {
-          for (int i = 0; i < nv; i++) dv[i] = (i == k ? 1.0 : 0.0);
-          memcpy(d->qpos, q0, sizeof(mjtNum) * nq);
-          mj_integratePos(m, d->qpos, dv, sg ? -eps : eps);
-          mj_forward(m, d);
-          char nm[64];
-          snprintf(nm, sizeof(nm), "%c%d_efc_type", sg ? 'M' : 'P', k); pi(nm, d->efc_type, d->nefc);
-          snprintf(nm, sizeof(nm), "%c%d_efc_id", sg ? 'M' : 'P', k); pi(nm, d->efc_id, d->nefc);
-          snprintf(nm, sizeof(nm), "%c%d_efc_pos", sg ? 'M' : 'P', k); pd(nm, d->efc_pos, d->nefc);
-        }
-        m->opt.jacobian = savej;
+        efc_block(m, d);
       } else err = 1;
       MJG_END;
     } else err = 2;
